@@ -244,6 +244,59 @@ def classic_T_zero_start(lg, case, seed):
     return np.array(cols).T, {"sizes": sz0, "residual": resid}
 
 
+def classic_T_prior(lg, case, seed, zero_start=False):
+    """SamplingEnabler(likelihood metric at p, prior metric diag(sinv) != 1, ic): the classic
+    Wiener-filter sampler (WienerFilterCurvature with S != 1) on the two-key domain."""
+    import nifty.cl as ift
+    H, mean, doms = classic_model(lg, case)
+    lhx = H.likelihood_energy(ift.Linearization.make_var(mean, want_metric=True))
+    sinv = lg.f("sinv")
+    offs = [0, sizes_of(case)[0], lg.n]
+    prior = ift.makeOp(ift.MultiField.from_dict(
+        {k: ift.makeField(doms[k], sinv[offs[i]:offs[i + 1]].copy()) for i, k in enumerate(KEYS)}),
+        sampling_dtype=np.float64)
+    ic = ift.AbsDeltaEnergyController(1e-15, iteration_limit=500, convergence_level=3)
+    se = ift.SamplingEnabler(lhx.metric, prior, ic, start_from_zero=zero_start)
+
+    def draw(white):
+        def go():
+            with L.classic_feed_flat(white) as sizes:
+                y, x = se.special_draw_sample(from_inverse=True)
+            return flat_mf(x, case), flat_mf(se(x) - y, case), list(sizes)
+        return _quiet(go)
+    _, _, sz0 = draw(None)
+    K = sum(sz0)
+    cols, resid = [], 0.0
+    for i in range(K):
+        white = np.zeros(K)
+        white[i] = 1.0
+        col, r, sz = draw(white)
+        if sz != sz0:
+            raise RuntimeError("white-noise requests changed between runs")
+        cols.append(col)
+        resid = max(resid, float(np.abs(r).max()))
+    return np.array(cols).T, {"sizes": sz0, "residual": resid}
+
+
+def prior_term(lg, case, T):
+    Qm = lg.Q if case["nonlinear"] else [[Fr(0)] * lg.n for _ in range(lg.m)]
+    return "factor_ok_prior %s %s %s %s %s %s %s %s" % (
+        TOL_T_Q, C.cnat(T.shape[1]), qm(lg.R), qm(Qm), qm(lg.Ninv), qv(lg.p), qv(lg.sinv), fm(T))
+
+
+def prior_failure(lg, case, T, info):
+    if not np.all(np.isfinite(T)):
+        return "non-finite sampling factor"
+    J = lg.np_lin()[0] if case["nonlinear"] else lg.f("R")
+    A = J.T @ lg.f("Ninv") @ J + np.diag(lg.f("sinv"))
+    err = np.abs(T @ T.T @ A - np.eye(lg.n)).max()
+    if err > TOL_T:
+        return "non-unit prior metric: |T T^T (M + S^-1) - 1| = %.3e" % err
+    if info["residual"] > 1e-9:
+        return "non-unit prior metric: the returned inverse sample does not solve metric @ x = b (residual %.3e)" % info["residual"]
+    return None
+
+
 def jax_T(lg, case, seed):
     import jax
     from nifty.re import evi
@@ -428,6 +481,105 @@ def rows(a):
     return C.clist([fv(r) for r in a])
 
 
+# --------------------------------------------------------------------------------------------------
+# (5) nifty.re Samples: re-centring API (at / squeeze / indexing), integer data => exact
+# --------------------------------------------------------------------------------------------------
+
+def gen_api_case(rng, idx):
+    na, nb = int(rng.integers(1, 3)), int(rng.integers(1, 3))
+    n = na + nb
+    iv = lambda *shape: [[int(x) for x in r] for r in rng.integers(-3, 4, size=shape)]
+    half = iv(2, n)
+    res = [half[0], [-x for x in half[0]], half[1], [-x for x in half[1]]]
+    return {"idx": int(idx), "na": na, "n": n, "with_keys": bool(idx % 2 == 0),
+            "p": iv(1, n)[0], "new": iv(1, n)[0], "old": iv(1, n)[0], "res": res, "abs": iv(4, n), "mean": iv(1, n)[0]}
+
+
+def run_samples_api(ac):
+    import jax
+    import jax.numpy as jnp
+    import nifty.re as jft
+    na = ac["na"]
+
+    def vec(flat):
+        a = np.asarray(flat, dtype=np.float64)
+        return jft.Vector({"a": jnp.asarray(a[:na]), "b": jnp.asarray(a[na:])})
+
+    def stack(rws):
+        a = np.asarray(rws, dtype=np.float64)
+        return jft.Vector({"a": jnp.asarray(a[..., :na]), "b": jnp.asarray(a[..., na:])})
+
+    def flat(v):
+        t = v.tree
+        return np.concatenate([np.asarray(t["a"], dtype=np.float64), np.asarray(t["b"], dtype=np.float64)], axis=-1)
+
+    def read(t):
+        return {"pos": flat(t.pos).tolist(), "res": flat(t._samples).tolist(), "smp": flat(t.samples).tolist()}
+    keys = jax.random.split(jax.random.PRNGKey(ac["idx"]), 2) if ac["with_keys"] else None
+    s = jft.Samples(pos=vec(ac["p"]), samples=stack(ac["res"]), keys=keys)
+    out = {}
+    for name, t in (("at", s.at(vec(ac["new"]))),
+                    ("at_old_is_pos", s.at(vec(ac["new"]), old_pos=vec(ac["p"]))),
+                    ("at_old_other", s.at(vec(ac["new"]), old_pos=vec(ac["old"]))),
+                    ("at_absolute", jft.Samples(pos=None, samples=stack(ac["abs"]), keys=keys).at(
+                        vec(ac["mean"]), old_pos=vec(ac["mean"])))):
+        out[name] = read(t)
+        out[name]["keys_kept"] = (t.keys is keys) or (keys is not None and bool(np.all(np.asarray(t.keys) == np.asarray(keys))))
+    sq = jft.Samples(pos=vec(ac["p"]), samples=stack([ac["res"][:2], ac["res"][2:]]), keys=keys).squeeze()
+    out["squeeze"] = read(sq)
+    out["len"] = len(s)
+    out["items"] = [flat(s[i]).tolist() for i in range(len(s))]
+    out["iter"] = [flat(x).tolist() for x in s]
+    try:
+        jft.Samples(pos=None, samples=stack(ac["abs"])).at(vec(ac["new"]))
+        out["at_without_offsets"] = "returned"
+    except ValueError:
+        out["at_without_offsets"] = "ValueError"
+    return out
+
+
+def api_terms(ac, out):
+    def lv(rws):
+        return C.clist([qv([Fr(x) for x in r]) for r in rws])
+    s = "{| jpos := Some %s; jres := %s |}" % (qv(ac["p"]), lv(ac["res"]))
+    sabs = "{| jpos := None; jres := %s |}" % lv(ac["abs"])
+    t = []
+    for name, obj, new, old in (("at", s, ac["new"], None), ("at_old_is_pos", s, ac["new"], ac["p"]),
+                                ("at_old_other", s, ac["new"], ac["old"]), ("at_absolute", sabs, ac["mean"], ac["mean"])):
+        o = out[name]
+        t.append((name, "jat_ok %s %s %s %s %s %s" % (obj, qv(new), "None" if old is None else "(Some %s)" % qv(old),
+                                                     fv(o["pos"]), rows(o["res"]), rows(o["smp"]))))
+    t.append(("squeeze", "lveqb (jres (jsqueeze (Some %s) %s)) %s && lveqb (jsamples (jsqueeze (Some %s) %s)) %s" % (
+        qv(ac["p"]), C.clist([lv(ac["res"][:2]), lv(ac["res"][2:])]), rows(out["squeeze"]["res"]),
+        qv(ac["p"]), C.clist([lv(ac["res"][:2]), lv(ac["res"][2:])]), rows(out["squeeze"]["smp"]))))
+    t.append(("items", "lveqb (jsamples %s) %s && lveqb (jsamples %s) %s && %s" % (
+        s, rows(out["items"]), s, rows(out["iter"]), C.cbool(out["len"] == 4 and out["at_without_offsets"] == "ValueError"))))
+    return t
+
+
+def api_failure(ac, out):
+    p, new, old, mean = (np.asarray(ac[k], dtype=np.float64) for k in ("p", "new", "old", "mean"))
+    r, ab = np.asarray(ac["res"], dtype=np.float64), np.asarray(ac["abs"], dtype=np.float64)
+    want = {"at": new + r, "at_old_is_pos": new + r, "at_old_other": new + (p + r - old), "at_absolute": ab}
+    for name, w in want.items():
+        o = out[name]
+        if np.any(np.asarray(o["smp"]) != w):
+            return "Samples.%s: re-centred samples are not new position + (old samples - old_pos)" % name
+        if np.any(np.asarray(o["pos"]) != (mean if name == "at_absolute" else new)):
+            return "Samples.%s: wrong expansion point" % name
+        if not o["keys_kept"]:
+            return "Samples.%s: keys not kept" % name
+    if np.any(np.asarray(out["at"]["res"]) != r) or np.any(np.asarray(out["at_old_is_pos"]["res"]) != r):
+        return "Samples.at changed the residuals"
+    if np.any(np.asarray(out["squeeze"]["smp"]) != p + r):
+        return "Samples.squeeze changed or reordered the samples"
+    if out["len"] != 4 or np.any(np.asarray(out["items"]) != p + r) or np.any(np.asarray(out["iter"]) != p + r):
+        return "Samples indexing / iteration does not return expansion point + residual"
+    if out["at_without_offsets"] != "ValueError":
+        return "Samples(pos=None).at(pos) without old_pos did not raise"
+    return None
+
+
 class C18(C.Check):
     prop = "C18"
     coq_dir = "C18"
@@ -446,7 +598,7 @@ class C18(C.Check):
     ]
 
     def __init__(self):
-        self.obs_cf, self.obs_T, self.obs_S = [], [], []
+        self.obs_cf, self.obs_T, self.obs_S, self.obs_A = [], [], [], []
 
     def cases(self, ctx):
         rng = ctx.rng(18)
@@ -509,16 +661,20 @@ class C18(C.Check):
         self.obs_T = []
         for case in cases:
             lg = L.LG(case)
-            for api in ("cl", "re", "cl0"):
-                fn = {"cl": classic_T, "re": jax_T, "cl0": classic_T_zero_start}[api]
-                ecase = case if api != "cl0" else dict(case, pe=[], napprox=0)
+            for api in ("cl", "re", "cl0", "clS", "clS0"):
+                fn = {"cl": classic_T, "re": jax_T, "cl0": classic_T_zero_start, "clS": classic_T_prior,
+                      "clS0": lambda a, b, c_: classic_T_prior(a, b, c_, zero_start=True)}[api]
+                ecase = case if api in ("cl", "re") else dict(case, pe=[], napprox=0)
                 try:
                     T, info = fn(lg, ecase, ctx.seed)
                     err = None
                 except Exception as e:
                     T, info, err = None, None, "%s: %s\n%s" % (type(e).__name__, str(e)[:300], traceback.format_exc()[-800:])
                 self.obs_T.append((ecase, api, T, info, err))
-                checks.append("false" if err or not np.all(np.isfinite(T)) else factor_term(lg, ecase, T))
+                if err or not np.all(np.isfinite(T)):
+                    checks.append("false")
+                else:
+                    checks.append(prior_term(lg, ecase, T) if api.startswith("clS") else factor_term(lg, ecase, T))
                 meta.append((api + ".factor", ecase))
         timing["factors_s"] = round(time.time() - t0, 1)
         t0 = time.time()
@@ -588,6 +744,24 @@ class C18(C.Check):
                         TOL_GEO_Q, C.cnat(lg.n), qm(lg.R), qm(Qm), qm(lg.Ninv), qv(cc), qv(lg.d), qv(lg.p),
                         fv(o["wf_pos"]), rows(o["wf_res"])))
                     meta.append(("re.wf_linearised_samples", case))
+        # ---- (5) Samples re-centring API ----
+        self.obs_A = []
+        rng_api = ctx.rng(1805)
+        for i in range(4 if ctx.quick else 24):
+            ac = gen_api_case(rng_api, i)
+            try:
+                o = run_samples_api(ac)
+                err = None
+            except Exception as e:
+                o, err = None, "%s: %s\n%s" % (type(e).__name__, str(e)[:300], traceback.format_exc()[-800:])
+            self.obs_A.append((ac, o, err))
+            if err:
+                checks.append("false")
+                meta.append(("re.samples_api", ac))
+                continue
+            for name, term in api_terms(ac, o):
+                checks.append(term)
+                meta.append(("re.samples_api." + name, ac))
         timing["samples_s"] = round(time.time() - t0, 1)
         t0 = time.time()
         bad = L.eval_cases_pid(C, self.prop, HEADER, checks, 12)
@@ -663,9 +837,15 @@ class C18(C.Check):
         for case, api, T, info, err in self.obs_T:
             n += 1
             lg = L.LG(case)
-            f = ("sampler raised: " + err.split("\n")[0]) if err else factor_failure(lg, case, T, info, api)
+            if err:
+                f = "sampler raised: " + err.split("\n")[0]
+            elif api.startswith("clS"):
+                f = prior_failure(lg, case, T, info)
+            else:
+                f = factor_failure(lg, case, T, info, api)
             if f:
-                fail({"api": api[:2], "fn": "linear_sample" if api != "cl0" else "SamplingEnabler.start_from_zero"},
+                fail({"api": api[:2], "fn": {"cl0": "SamplingEnabler.start_from_zero", "clS": "SamplingEnabler.prior_metric",
+                                             "clS0": "SamplingEnabler.prior_metric"}.get(api, "linear_sample")},
                      "%s: %s" % (api, f), {"kind": "factor", "api": api, "case": case, "seed": ctx.seed})
         # samples
         for case, api, o, err in self.obs_S:
@@ -677,6 +857,11 @@ class C18(C.Check):
             f = samples_failure(case, api, o)
             if f:
                 fail({"api": api, "fn": "samples"}, "%s: %s" % (api, f), inp)
+        for ac, o, err in self.obs_A:
+            n += 1
+            f = ("raised: " + err.split("\n")[0]) if err else api_failure(ac, o)
+            if f:
+                fail({"api": "re", "fn": "Samples"}, "re: %s" % f, {"kind": "samples_api", "case": ac, "seed": ctx.seed})
         if budget > 1 and not res.failing:
             rng = ctx.rng(1818)
             for i in range(12 * budget):
@@ -716,13 +901,22 @@ class C18(C.Check):
                                  for k in range(len(allres) // 2))
             return bool(bad)
         _nifty_quiet()
+        if i["kind"] == "samples_api":
+            try:
+                f = api_failure(i["case"], run_samples_api(i["case"]))
+            except Exception as e:
+                f = "raised %s: %s" % (type(e).__name__, str(e)[:200])
+            if f:
+                print("  " + f)
+            return f is not None
         case, api = i["case"], i["api"]
         lg = L.LG(case)
         try:
             if i["kind"] == "factor":
-                fn = {"cl": classic_T, "re": jax_T, "cl0": classic_T_zero_start}[api]
+                fn = {"cl": classic_T, "re": jax_T, "cl0": classic_T_zero_start, "clS": classic_T_prior,
+                      "clS0": lambda a, b, c_: classic_T_prior(a, b, c_, zero_start=True)}[api]
                 T, info = fn(lg, case, i.get("seed", 0))
-                f = factor_failure(lg, case, T, info, api)
+                f = prior_failure(lg, case, T, info) if api.startswith("clS") else factor_failure(lg, case, T, info, api)
             else:
                 o = jax_samples_and_geo(lg, case, i.get("seed", 0)) if api == "re" else classic_geo(lg, case, i.get("seed", 0))
                 f = samples_failure(case, api, o)
